@@ -32,6 +32,8 @@ func rulesC10(c *Ctx) {
 	R.Rule("R8", "hash_to_curve hashes the whole secret (census shared with C11.R1): a signature is bound to the complete secret", 6)
 	R.Rule("R9", "restore returns the stored signature unmodified (shared with C15.R4)", 7)
 	R.Rule("R10", "the BDHKE functions are pure in their arguments: no in-place scalar / field / point operation of the curve library is applied to memory reached from a parameter (blinding factors and keys handed in stay what they were)", 4)
+	R.Rule("R12", "swap and mint hand out, position by position, the signatures just produced for the request's own output list (the wallet pairs signature i with output i)", 2)
+	c.c10HandedOutAreSigned("R12")
 	c.vocabProblems("R2")
 	c.c10ArgumentsNotMutated()
 	// the signer's wiring (shared with C02.R5 / C09.R4): key, emitted amount and id belong to one keyset
@@ -443,5 +445,48 @@ func (c *Ctx) c10ArgumentsNotMutated() {
 	}
 	if n == 0 {
 		R.Unresolved("R10", "curve-library method calls in package crypto", "none found")
+	}
+}
+
+// c10HandedOutAreSigned: R12. The wallet pairs the i-th returned signature with its i-th output (key by amount, r by
+// index); a signature list that is not, position by position, what the signer produced for the request's outputs - a
+// stored list read back in table order, say - does not unblind to valid proofs. Decided by provenance: every success
+// return of the swap and the mint operation hands back the result of the signing helper applied to the request's own,
+// unmodified output list.
+func (c *Ctx) c10HandedOutAreSigned(rule string) {
+	R := c.R
+	for _, path := range []string{"/v1/swap", "/v1/mint/{method}"} {
+		op := c.op(rule, path)
+		if op == nil {
+			continue
+		}
+		o := c.P.OriginsOf(op)
+		fk := c.P.FuncKey(op)
+		n, total := 0, 0
+		for _, r := range o.SuccessReturns() {
+			if len(r.Results) < 2 {
+				continue
+			}
+			n++
+			e := o.Of(r.Results[0])
+			ok, why, signed := true, "", 0
+			for _, a := range e.Alts() {
+				switch {
+				case a.K == "zero", isConst(a, "nil"):
+				case a.K == "call" && a.S == "mint.(*Mint).signBlindedMessages" && a.Idx == 0 && len(a.Args) == 2 && strings.HasPrefix(a.Args[1].String(), "P:") && !a.Args[1].Has(func(x *Ex) bool { return x.K == "call" }):
+					signed++
+				default:
+					ok, why = false, "returns "+short(a.String(), 200)
+				}
+			}
+			total += signed
+			R.Check(rule, fk, "signatures handed out = signer's result for the request's outputs", c.P.InstrPos(r), ok,
+				"the operation returns, in order, exactly the signatures just produced for the outputs of this request", why)
+		}
+		if n == 0 {
+			R.Unresolved(rule, "success return of "+fk, "none found")
+		} else if total == 0 {
+			R.Check(rule, fk, "the operation hands out the signer's result", c.P.Pos(op.Pos()), false, "some success return hands out what the signer produced", "no success return carries the result of the signing helper")
+		}
 	}
 }
